@@ -18,6 +18,10 @@ use std::path::PathBuf;
 pub struct Case {
 	pub base: u8,
 	pub ops: Vec<Op>,
+	/// 0 none; 1 / 2: the history starts on the world where both accounts of wallet 0 have the same past (so their
+	/// per-account log ids coincide) with a pending send in each account, reserved (1) or finalized but not posted (2); 3: as 2, then the first of them is cancelled by its sender
+	#[serde(default)]
+	pub preset: u8,
 }
 
 pub fn op_strategy() -> BoxedStrategy<Op> {
@@ -217,15 +221,15 @@ impl Prop for C04 {
 	}
 	fn strategy(&self, tier: Tier) -> BoxedStrategy<Case> {
 		let n = tier.pick(30usize, 44usize);
-		(0u8..4, prop::collection::vec(op_strategy(), 8..n))
-			.prop_map(|(base, ops)| Case { base, ops })
+		(0u8..4, prop::collection::vec(op_strategy(), 8..n), prop_oneof![8 => Just(0u8), 1 => Just(1u8), 1 => Just(2u8), 2 => Just(3u8)])
+			.prop_map(|(base, ops, preset)| Case { base, ops, preset })
 			.boxed()
 	}
 	fn shrink_iters(&self) -> u32 {
 		self.tier.pick(48, 96)
 	}
 	fn rule(&self) -> String {
-		"histories of 8..30 (thorough 44) ops over 2 wallets x 2 accounts on a real chain (mine with mempool subsets, refresh, node down/up/flaky, account switch, send with generated args incl. late-lock/proof/includes-fee, lock, deliver, finalize, post, cancel-before-post, invoice issue/pay/finalize, self-send same/other account, restart), protocol steps in legal order; after every successful refresh and for every wallet/account at the end: live records == account's outputs in the chain's unspent set (independent rewind), balance figures recomputed from chain data for min_conf in {1,2,maturity+2}, ledger equation; cross-account isolation per op; non-trivial = successful refresh after >=1 mined wallet transaction with >=2 distinct output statuses present; distinct by case hash".into()
+		"histories of 8..30 (thorough 44) ops over 2 wallets x 2 accounts on a real chain (optionally starting with a pending send in each of two accounts whose log ids coincide; mine with mempool subsets, long waits of > 50 blocks, refresh, node down/up/flaky, account switch, send with generated args incl. late-lock/proof/includes-fee, lock, deliver, finalize, post, cancel-before-post, invoice issue/pay/finalize, self-send same/other account, restart), protocol steps in legal order; after every successful refresh and for every wallet/account at the end: live records == account's outputs in the chain's unspent set (independent rewind), balance figures recomputed from chain data for min_conf in {1,2,maturity+2}, ledger equation; cross-account isolation per op; non-trivial = successful refresh after >=1 mined wallet transaction with >=2 distinct output statuses present; distinct by case hash".into()
 	}
 	fn assumptions(&self) -> Vec<String> {
 		vec![
@@ -250,9 +254,33 @@ impl Prop for C04 {
 
 impl C04 {
 	fn run_case(&mut self, c: &Case, dir: &PathBuf, out: &mut Outcome) -> Result<(), String> {
-		let mut sim = base::open_copy(&self.bases[c.base as usize % self.bases.len()], dir)?;
+		let base_i = if c.preset != 0 { 3 } else { c.base as usize % self.bases.len() };
+		let mut sim = base::open_copy(&self.bases[base_i], dir)?;
 		sim.strict = true;
 		sim.never_mine_cancelled = true;
+		if c.preset != 0 {
+			for a in 0..ACCOUNTS.len() {
+				sim.switch_account(0, a)?;
+				let args = SendArgs { amount: AmountPick::Frac(3000), use_all: false, ..SendArgs::default() };
+				if let Ok(si) = sim.init_send(0, 1, &args) {
+					let mut r = sim.lock(si);
+					if c.preset >= 2 {
+						r = r.and_then(|_| sim.deliver(si)).and_then(|_| sim.finalize(si));
+					}
+					if let Err(e) = r {
+						crate::rt::dbg(&format!("preset step failed: {}", e));
+					}
+				}
+			}
+			sim.switch_account(0, 0)?;
+			if c.preset == 3 {
+				// ... and the sender drops the first of them before it was ever posted
+				if let Some(si) = (0..sim.slates.len()).find(|i| sim.slates[*i].initiator == 0 && sim.slates[*i].initiator_acct == 0) {
+					let _ = sim.cancel(0, si, false);
+				}
+			}
+			out.class(format!("preset={}", c.preset));
+		}
 		let kcs: Vec<ExtKeychain> = (0..sim.world.wallets.len())
 			.map(|i| truth::keychain_from_phrase(&sim.w(i).phrase))
 			.collect::<Result<_, _>>()?;
